@@ -866,6 +866,9 @@ def c05(run):
         k = rng.randrange(len(main))
         wrapped = main[:k] + [('if', TRUE, [main[k]], None)] + main[k + 1:]
         safe = main[k][0] in ('output', 'callstmt') or (main[k][0] == 'assign')      # binds no new name: globals only
+        # the pronoun is cleared when a block ends, and callees see the caller's pronoun: the relation
+        # only holds for programs that never use a pronoun
+        safe = safe and "'pronoun'" not in repr((stmts, main))
         seed = rng.random()
         import random as _r
         srcs = []
